@@ -11,7 +11,8 @@ From CF Require Import Common.Bytes C10.Model C10.Proofs.
 From Coq Require Import ZifyBool.
 Open Scope Z_scope.
 
-Inductive lockv := WithFinally | NoFinally.
+Inductive lockv := WithFinally | NoFinally | ArmLate.
+(* ArmLate = the seeded change C10-g: the timer bookkeeping is done AFTER link.send_packet returned (for refutation only) *)
 Inductive act := AUser (rid hdr : Z) (data exp : list Z) (tmo : Z) | ATimer (tid : Z).
 Inductive outcome := Ok | DriverRaises | SentCbRaises.
 Inductive status := Wait | Hold | Fin.
@@ -79,7 +80,11 @@ Definition lstep (lv : lockv) (s : lstate) (e : levent) : lstate * list output :
       | None, Some (a, Wait, _) =>
           let (b', outs) := step Fixed (base s) (act_event a) in
           if has_tx outs
-          then (mkL b' (Some i) (set_nth i (a, Hold, outs) (calls s)) (trace s ++ [act_event a]), [])
+          then match lv with
+               | ArmLate => (mkL (base s) (Some i) (set_nth i (a, Hold, outs) (calls s)) (trace s), [])
+               | _ => (* ARM, THEN HAND TO THE DRIVER: the pattern and its timer exist while the driver call is in progress *)
+                      (mkL b' (Some i) (set_nth i (a, Hold, outs) (calls s)) (trace s ++ [act_event a]), [])
+               end
           else (* no link / nothing to resend: released at once, on the early-return path too *)
                (mkL b' None (set_nth i (a, Fin, []) (calls s)) (trace s ++ [act_event a]), outs)
       | _, _ => (s, [])
@@ -89,12 +94,18 @@ Definition lstep (lv : lockv) (s : lstate) (e : levent) : lstate * list output :
       | Some j, Some (a, Hold, outs) =>
           if (j =? i)%nat then
             let released := match lv, o with
-                            | WithFinally, _ => None
-                            | NoFinally, Ok => None
-                            | NoFinally, _ => Some i         (* the exception skips the release *)
+                            | NoFinally, DriverRaises | NoFinally, SentCbRaises => Some i   (* the exception skips the release *)
+                            | _, _ => None
                             end in
-            (mkL (base s) released (set_nth i (a, Fin, []) (calls s)) (trace s),
-             match o with DriverRaises => [] | _ => outs end)
+            match lv, o with
+            | ArmLate, Ok | ArmLate, SentCbRaises =>
+                (* the bookkeeping only now, on whatever the state has become meanwhile *)
+                let (b', outs') := step Fixed (base s) (act_event a) in
+                (mkL b' released (set_nth i (a, Fin, []) (calls s)) (trace s ++ [act_event a]), outs')
+            | _, _ =>
+                (mkL (base s) released (set_nth i (a, Fin, []) (calls s)) (trace s),
+                 match o with DriverRaises => [] | _ => outs end)
+            end
           else (s, [])
       | _, _ => (s, [])
       end
@@ -261,6 +272,86 @@ Example withfinally_releases :
   let s := fst (lrun WithFinally linit leak_events) in
   holder s = Some 1%nat /\ map status_of (calls s) = [Fin; Hold].
 Proof. vm_compute. auto. Qed.
+
+(* ------------------------------------------------------------------ arm, THEN hand to the driver *)
+(* When a call with an expected reply gets the lock on an open link that needs resending, the pattern and its armed
+   timer exist from that moment on — i.e. during the whole (possibly blocking) driver call. *)
+Theorem acquire_arms_before_driver s i rid hdr data x exp tmo po sess :
+  holder s = None -> nth_error (calls s) i = Some (AUser rid hdr data (x :: exp) tmo, Wait, po) ->
+  link (base s) = Some sess -> nr (base s) = true -> (length data <= 30)%nat ->
+  let pat := hdr_attr hdr :: x :: exp in
+  let s1 := fst (lstep WithFinally s (LAcquire i)) in
+  holder s1 = Some i /\
+  lookup pat (pats (base s1)) = Some (length (timers (base s))) /\
+  nth_error (timers (base s1)) (length (timers (base s))) =
+    Some (mkTimer rid (hdr_attr hdr :: data) pat tmo (now (base s) + tmo) Armed sess).
+Proof.
+  intros Hd E L N Sz pat s1. unfold s1. cbn [lstep]. rewrite Hd, E. cbn [act_event].
+  destruct (send_starts_timer (base s) rid hdr data exp x tmo sess L N Sz) as (O & Lk & Et).
+  destruct (step Fixed (base s) (Send rid hdr data (x :: exp) tmo)) as [b' outs]. cbn [fst snd] in *.
+  rewrite O. cbn [has_tx existsb orb fst holder base]. auto.
+Qed.
+
+(* Everything that does not need the lock acts on that state while the driver call is in progress: it is an ordinary
+   step of the plain model (so C10_longest_prefix_only, C10_close_forgets_everything, ... apply to it) and does not touch
+   the lock or the calls. *)
+Theorem base_event_during_driver_call lv s ev :
+  match ev with Send _ _ _ _ _ | RunT _ => False | _ => True end ->
+  let s' := fst (lstep lv s (LBase ev)) in
+  base s' = fst (step Fixed (base s) ev) /\ holder s' = holder s /\ calls s' = calls s /\
+  snd (lstep lv s (LBase ev)) = snd (step Fixed (base s) ev).
+Proof.
+  intros H. destruct ev; try contradiction; cbn [lstep];
+    destruct (step Fixed (base s) _) as [b' outs]; cbn [fst snd base holder calls]; auto.
+Qed.
+
+(* a reply that arrives while the sender is still inside the driver call cancels the request: it is not pending when the
+   driver call returns (hence never retransmitted, C10_no_retry_after_answer) *)
+Theorem reply_during_driver_call_cancels lv s hdr data best i t :
+  Inv (base s) -> link (base s) <> None ->
+  best = longest_match (hdr_attr hdr :: data) (pats (base s)) [] -> best <> [] ->
+  lookup best (pats (base s)) = Some i -> nth_error (timers (base s)) i = Some t ->
+  let s' := fst (lstep lv s (LBase (Recv hdr data))) in
+  lookup best (pats (base s')) = None /\ nth_error (timers (base s')) i = Some (cancel1 t) /\ holder s' = holder s.
+Proof.
+  intros I L -> N Lk E s'. destruct (base_event_during_driver_call lv s (Recv hdr data) Logic.I) as (B & H & _).
+  fold s' in B, H. rewrite B. destruct (recv_longest_only Fixed (base s) hdr data) as (_ & _ & _ & Eff & _).
+  rewrite (Eff L i Lk N). cbn [pats timers set_pt]. split; [|split; [|exact H]].
+  - rewrite lookup_remove_key by exact (inv_keys _ I). rewrite zlist_eqb_refl. reflexivity.
+  - unfold cancel_t. apply upd_nth_same. exact E.
+Qed.
+
+(* a link error (or close_link) during the driver call leaves no timer behind: nothing pending, no armed timer *)
+Theorem link_error_during_driver_call_leaves_no_timer lv s :
+  Inv (base s) -> link (base s) <> None ->
+  let s' := fst (lstep lv s (LBase LinkErr)) in
+  pats (base s') = [] /\ link (base s') = None /\
+  (forall j t, nth_error (timers (base s')) j = Some t -> t_status t <> Armed) /\ holder s' = holder s.
+Proof.
+  intros I L s'. destruct (base_event_during_driver_call lv s LinkErr Logic.I) as (B & H & _). fold s' in B, H.
+  pose proof (inv_step (base s) LinkErr I) as I'. rewrite <- B in I'.
+  assert (pats (base s') = [] /\ link (base s') = None) as [P Ln].
+  { rewrite B. cbn [step]. destruct (link (base s)); [cbn; auto | congruence]. }
+  split; [exact P|]. split; [exact Ln|]. split; [|exact H].
+  intros j t E A. pose proof (inv_armed _ I' j t E A) as X. rewrite P in X. discriminate.
+Qed.
+
+(* ---- refutation of arming AFTER the driver call (seeded C10-g), on the same event lists *)
+Definition ev_reply_in_driver : list levent :=
+  [LBase (Open true); LStart (AUser 0 144 [0] [7] 100); LAcquire 0; LBase (Recv 144 [7; 1]); LFinish 0 Ok;
+   LBase (Adv 100); LBase (Expire 0); LStart (ATimer 0); LAcquire 1; LFinish 1 Ok].
+Definition ev_linkerr_in_driver : list levent :=
+  [LBase (Open true); LStart (AUser 0 144 [0] [7] 100); LAcquire 0; LBase LinkErr; LFinish 0 Ok; LBase (Open true);
+   LBase (Adv 100); LBase (Expire 0); LStart (ATimer 0); LAcquire 1; LFinish 1 Ok].
+Definition txl (r : lstate * list output) : list (Z * Z * Z) :=
+  concat (map (fun o => match o with OTx a b _ d => [(a, b, d)] | _ => [] end) (snd r)).
+
+Example arm_first_answer_in_driver_stops_request : txl (lrun WithFinally linit ev_reply_in_driver) = [(0, 0, 0)].
+Proof. vm_compute. reflexivity. Qed.
+Example arm_late_answered_request_is_retransmitted : txl (lrun ArmLate linit ev_reply_in_driver) = [(0, 0, 0); (0, 0, 100)].
+Proof. vm_compute. reflexivity. Qed.
+Example arm_first_link_error_in_driver_no_cross_session : txl (lrun WithFinally linit ev_linkerr_in_driver) = [(0, 0, 0)].
+Proof. vm_compute. reflexivity. Qed.
 
 (* ------------------------------------------------------------------ observable for the correspondence step *)
 Definition status_code_l (st : status) : Z := match st with Wait => 0 | Hold => 1 | Fin => 2 end.
